@@ -43,8 +43,10 @@ func addORShortcut(node schema.Node, rootSchema *schema.Schema, val string) {
 
 		CompileBasic(&typ, true)
 
+		// The node keeps its positions in the file, so the type begins at 0:
+		// the offset is added to the positions of errors found in the type.
 		lex := node.BasisLexEventOfSchemaForNode()
-		rootSchema.AddUnnamedType(&typ, lex.File(), lex.Begin())
+		rootSchema.AddUnnamedType(&typ, lex.File(), 0)
 
 		s = strings.TrimSpace(s)
 		ss.AddName(s, s, jschema.RuleASTNodeSourceGenerated)
